@@ -15,6 +15,7 @@ import traceback
 
 HERE = os.path.dirname(os.path.dirname(os.path.abspath(__file__)))
 REPO = os.environ.get('PYVC_REPO', '/repo')
+OUT = os.environ.get('PYVC_OUT', HERE)      # where evidence/ and replays/ are written
 
 
 def setup_path():
@@ -69,7 +70,7 @@ def finding_matches(f, prop, key, rec):
 
 
 def write_replay(prop, unit, rec, status_note):
-    d = os.path.join(HERE, 'replays', prop)
+    d = os.path.join(OUT, 'replays', prop)
     os.makedirs(d, exist_ok=True)
     safe = ''.join(c if c.isalnum() or c in '._-' else '_' for c in (rec['name'] + '_' + json.dumps(unit.get('enum') or {}, sort_keys=True)))[:150]
     path = os.path.join(d, safe + '.json')
@@ -93,7 +94,7 @@ def write_replay(prop, unit, rec, status_note):
     }
     with open(path, 'w') as f:
         json.dump(data, f, indent=1, default=repr)
-    return os.path.relpath(path, HERE)
+    return os.path.relpath(path, HERE) if OUT == HERE else path
 
 
 def do_replay(path):
@@ -387,8 +388,8 @@ def run_property(prop, tier, a):
         'wall_s': round(time.time() - t0, 2),
         'violations': len(violations),
     }
-    os.makedirs(os.path.join(HERE, 'evidence'), exist_ok=True)
-    with open(os.path.join(HERE, 'evidence', prop + '.json'), 'w') as f:
+    os.makedirs(os.path.join(OUT, 'evidence'), exist_ok=True)
+    with open(os.path.join(OUT, 'evidence', prop + '.json'), 'w') as f:
         json.dump(evidence, f, indent=1, default=repr)
     print('%s: %d obligations, %d discharged, %d known findings, %d violations, %d undecided, %.1fs' % (
         prop, total, discharged, len(known_hits), len(violations), len(undecided), time.time() - t0))
